@@ -5,6 +5,7 @@ Property theorems only. Model: Vuego/Model/Overlay.lean (hand-written, loop-for-
 -/
 import Vuego.Lemmas.Overlay
 import Vuego.Generated.Overlay
+import Vuego.Generated.MdFacts
 namespace Vuego.Props.C18
 open Go Vuego.Overlay
 
@@ -170,6 +171,13 @@ theorem readdir_error_iff_byFound (c : Chain) (p : Str) :
       have := hall j
       simpa [listingAt, hL] using this
     simp [hf, hl]
+
+/-- the markdown renderer's use of the overlay (regenerated from package markdown): the content filesystem is laid over the embedded
+    templates by at least one statement, and under no condition other than "a content filesystem was given" - in particular not under a
+    test of what that filesystem lists. Which layer serves a template path is then decided by `Open` alone (`open_first_layer` below), path
+    by path, at the time of the request. -/
+theorem source_markdown_overlay_unconditional :
+    0 < Generated.mdOverlayCalls ∧ ∀ g ∈ Generated.mdOverlayGuards, g = "P != nil" := by decide
 
 /-- … and the source uses such a rule. (Fails to check, and the check reports it, when the source's rule is `len(merged) == 0 && lastErr != nil`.) -/
 theorem source_rule_is_byFound : Generated.overlayErrRule = .byFound := by decide
